@@ -242,6 +242,30 @@ def get_layouts(specs: List[dict], compiled: Sequence[int] = (), imports: Sequen
     return L
 
 
+def eval_cases_robust(header: str, cases: List[str], per_file: int, tag: str = "c") -> Tuple[List[int], str]:
+    """FAM.eval_cases, hardened: a shard that failed to evaluate (coqc rc != 0, timeout under load, unparsable
+    output) is re-run once on its own, sequentially; if it still fails the note carries coqc's return code and
+    the FIRST 600 characters of its output.  Returns (indices of differing cases, negative = shard still failing)."""
+    bad, log = FAM.eval_cases(header, cases, per_file=per_file, tag=tag)
+    failed = sorted({-b - 1 for b in bad if b < 0})
+    if not failed:
+        return bad, log
+    out = [b for b in bad if b >= 0]
+    notes = []
+    for k in failed:
+        chunk = cases[k * per_file:(k + 1) * per_file]
+        bad2, log2 = FAM.eval_cases(header, chunk, per_file=max(1, len(chunk)), tag=tag + "r")
+        if any(b < 0 for b in bad2):
+            body = header + "\nDefinition the_cases := [\n" + ";\n".join(chunk) + "].\n"
+            rc, o = FAM.run_v(body, timeout=600)
+            notes.append(f"shard {k} ({len(chunk)} cases) failed twice; type-check of its cases alone: coqc rc={rc}; "
+                         f"first output: {o[:600]!r}; retry log: {log2[:600]!r}")
+            out.append(-(k + 1))
+        else:
+            out += [k * per_file + b for b in bad2]
+    return sorted(out, key=lambda b: (b < 0, b)), "\n".join(notes)
+
+
 HEADER = """From Coq Require Import ZArith List Bool.
 From Val Require Import Gen.ValidatorTbl Model.Bytes Model.Floats Model.Values Model.Flag.
 Import ListNotations. Open Scope Z_scope.
